@@ -456,6 +456,9 @@ func c12GenCase(r *Rng, id int, focus bool) *c12Case {
 	k.impMode = r.Intn(4)
 	k.expr = r.Chance(1, 4)
 	k.extras = k.input != "json" && r.Chance(1, 4)
+	if k.input == "json" {
+		k.expr = false
+	}
 	o := &c12GenOpts{enc: k.enc, input: k.input, null: k.enc != "toml", big: k.enc != "toml" && k.enc != "yaml", precise: k.enc != "toml"}
 	if k.enc == "yaml" {
 		// integers beyond 64 bits and floats beyond float64 in YAML are C11 territory
@@ -553,5 +556,5 @@ func c12Witnesses(rn *c12Runner) {
 		want := &c12Map{Keys: []string{"a", "b", "c", "d"}, Vals: []any{"1979-05-27T07:32:00Z", "1979-05-27", "07:32:00", "1979-05-27T07:32:00"}}
 		ok = e.code == 0 && err == nil && c12Equal(j, want)
 	}
-	c.Direct(ok, "toml-datetime-import", "TOML date/time values do not survive import + export", map[string]any{"stderr": c12Trunc(w.stderr)})
+	c.Direct(ok, "toml-datetime-import-missing-time-import", "TOML date/time values do not survive `cue import` + `cue export`: the imported file uses time.Format without importing \"time\"", map[string]any{"stderr": c12Trunc(w.stderr)})
 }
